@@ -66,3 +66,18 @@ impl ironbeam::CombineFn<V, Vec<V>, V> for MaxAbs {
     fn finish(&self, acc: Vec<V>) -> V { acc.into_iter().next().unwrap_or(V::N) }
 }
 impl ironbeam::collection::LiftableCombiner<V, Vec<V>, V> for MaxAbs {}
+
+/// round 5 — "last value seen": LAWFUL (`merge(fold xs, fold ys) = fold(xs ++ ys)`, unit `create`, associative) but NOT
+/// commutative. Outside C05's "associative and commutative" clause, inside C03's "both give the same per-key result"
+/// and C01's seq = par: the engine merges partition accumulators in partition order, so the answer is the last value in
+/// SOURCE order in both modes, lifted or not. Lean: `Comb.uLast` (`Model/UserCombiners.lean::userLast`,
+/// `Props/C05.lean::lawful_uLast`, `uLast_not_commutative`).
+#[derive(Clone)]
+pub struct Last;
+impl ironbeam::CombineFn<V, Option<V>, V> for Last {
+    fn create(&self) -> Option<V> { None }
+    fn add_input(&self, acc: &mut Option<V>, v: V) { *acc = Some(v); }
+    fn merge(&self, acc: &mut Option<V>, other: Option<V>) { if other.is_some() { *acc = other; } }
+    fn finish(&self, acc: Option<V>) -> V { acc.unwrap_or(V::N) }
+}
+impl ironbeam::collection::LiftableCombiner<V, Option<V>, V> for Last {}
